@@ -7,6 +7,8 @@ Builds a scratch copy of /repo/src (outside /repo and /verif, removed afterwards
 cannot change behaviour:
   T1  every function-local variable (assigned in the function, not a parameter / global / nonlocal) gets a new name;
   T2  every private method of the package (`_name`, not dunder) gets a new name, at its definition and at every `x._name` use;
+  T4  (--attrs old=new,...) data attributes of the stores that the repository's tests do not pin are renamed everywhere
+      (reserved_items, reserved_events, ready_items): the monitors may become INCONCLUSIVE, they must not report violations;
   T3  a few well-known locals / private attributes of the node classes get unrelated names (item -> fi, pallet -> pl,
       item_in_process -> cur_item, ...), the renaming a maintainer would do by hand.
 The repository's 70 tests must still pass on the rewritten tree; then every engine runs a reduced pass with all monitors on.
@@ -19,6 +21,9 @@ PY = "/venv/bin/python"
 HAND = {"item": "fi", "pallet": "pl", "item_to_push": "obj", "item_in_process": "cur_item", "pallet_in_process": "cur_pallet",
         "out_edge_events": "oee", "chosen_put_event": "cpe", "in_edge_events": "iee", "reservation_tokens": "rtoks",
         "worker_thread_req": "wreq", "req_token": "rq"}
+
+
+ATTRS = {}     # T4 (option --attrs a=b,...): data attributes of the stores renamed everywhere, e.g. reserved_items=bound_items
 
 
 def private_methods(trees):
@@ -99,7 +104,9 @@ class Rewriter(ast.NodeTransformer):
 
     def visit_Attribute(self, n):
         self.generic_visit(n)
-        if n.attr in self.priv:
+        if n.attr in ATTRS:
+            n.attr = ATTRS[n.attr]
+        elif n.attr in self.priv:
             n.attr = n.attr + "_rn"
         elif self.hand and n.attr in HAND and isinstance(n.value, ast.Name) and n.value.id == "self":
             n.attr = HAND[n.attr]
@@ -107,7 +114,12 @@ class Rewriter(ast.NodeTransformer):
 
 
 def main():
-    scale = float(sys.argv[1]) if len(sys.argv) > 1 else 0.25
+    args = sys.argv[1:]
+    if "--attrs" in args:
+        i = args.index("--attrs")
+        ATTRS.update(dict(a.split("=") for a in args[i + 1].split(",")))
+        del args[i:i + 2]
+    scale = float(args[0]) if args else 0.25
     tmp = tempfile.mkdtemp(prefix="refprobe.")
     rc = 0
     try:
@@ -150,7 +162,8 @@ def main():
                 rc = 1
                 continue
             bad = {k: v for k, v in r["viol_count"].items() if not is_known(known, k)}
-            print(f"{engine} {json.dumps(params)[:60]} cases={r['cases']} crashed={r['crashed']} unlisted={sum(bad.values())}", flush=True)
+            print(f"{engine} {json.dumps(params)[:60]} cases={r['cases']} crashed={r['crashed']} unlisted={sum(bad.values())} "
+                  f"withheld={r['counters'].get('verdicts_withheld_store_internals_unreadable', 0)}", flush=True)
             for k, v in sorted(bad.items(), key=lambda kv: -kv[1])[:8]:
                 print("   FALSE ALARM", v, k)
             if bad:
